@@ -103,6 +103,7 @@ func checkC04(c *Ctx) {
 	}
 	micWrappers(c, "R4.wrappers", true)
 	flowC04(c)
+	statelessRoots(c, "R5.stateless", "PHYPayload.calculateUplinkJoinMIC", "PHYPayload.calculateDownlinkJoinMIC", "PHYPayload.SetUplinkJoinMIC", "PHYPayload.SetDownlinkJoinMIC", "PHYPayload.ValidateUplinkJoinMIC", "PHYPayload.ValidateDownlinkJoinMIC", "PHYPayload.EncryptJoinAcceptPayload", "PHYPayload.DecryptJoinAcceptPayload")
 	// ---- R3 encrypt
 	for _, v := range jaVariants() {
 		in := absint.NewInterp(c.Prog)
